@@ -17,7 +17,7 @@ def run(tier, rep):
         for i, e in enumerate(sh["edges"]):
             e["name"] = f"in{i}_{e['o']}"
         srcs.append(dict(kind="async", name=f"async.{nm}.shadow-names", spec=sh, user=TWO, policy="rr"))
-    with Pool() as pool:
+    with Pool(maxtasks=20) as pool:
         results = list(pool.imap("vf.c14_task", "c14_task", [dict(src=s, max_stacks=12 if tier == "quick" else 60) for s in srcs]))
     _collect(rep, results, "conversions")
     rep.section("family", sources=[s["name"] for s in srcs][:60], operations=["EpisodeRecord.to_graph", "ExperimentRecord.to_graph", "ExperimentRecord.stack + [i]", "Graph.stack of every ordered pair/triple + [i] + len",
